@@ -987,6 +987,18 @@ def np_argmax(eng, st, args, kw, node):
     return w
 
 
+def np_argmin(eng, st, args, kw, node):
+    v = args[0]
+    r = as_row(eng, st, v)
+    q = z3.Int('q!an')
+    n = to_z3(r.n, INT)
+    w = fresh('argmin', INT)
+    st.pc.append(z3.Implies(n > 0, z3.And(w >= 0, w < n)))
+    st.pc.append(z3.ForAll([q], z3.Implies(z3.And(q >= 0, q < n), to_z3(r.fn(q)) >= to_z3(r.fn(w)))))
+    st.pc.append(z3.ForAll([q], z3.Implies(z3.And(q >= 0, q < w), to_z3(r.fn(q)) > to_z3(r.fn(w)))))      # first minimal index
+    return w
+
+
 def np_min(eng, st, args, kw, node):
     v = args[0]
     if isinstance(v, (tuple, list)) and not isinstance(v, Opaque):
